@@ -344,7 +344,7 @@ def parseCfg (kv : Kv) : Cfg :=
     size := size, windowMs := kv.nat "wdur" 1000,
     minCalls := (kv.optNat "min").getD size,
     frNum := fr.1, frDen := fr.2, slowMs := kv.optNat "slow", srNum := sr.1, srDen := sr.2,
-    waitMs := kv.nat "wait" 1000, permitted := kv.nat "permitted" 1, cls := kv.nat "cls" 0,
+    waitMs := (if kv.str "wait" "" = "max" then 10 ^ 30 else kv.nat "wait" 1000), permitted := kv.nat "permitted" 1, cls := kv.nat "cls" 0,
     fallback := kv.nat "fallback" 0 == 1 }
 
 def parseOp (ws : List String) : Option Op :=
